@@ -18,6 +18,8 @@
    lists; proof creation with hash / seek / upgrade requests is not covered by a theorem. Both are covered on
    every run by tools/c09.py: boundary request tuples on six core shapes, structurally arbitrary proofs and the
    C04 alteration set, under catch_unwind + watchdog in a build with overflow checks, compared with the model. *)
+From HC Require Import AnyReopenA AnyReopenB AnyReopenC AnyReopenD AnyReopen1 AnyReopen2 C09Plain.
+From HC Require Import FrameGuardLib FrameGuard FrameGuardHist.
 From HC Require AnyProofCorEx.
 From HC Require Import AnyProofLib AnyProof AnyProofCorLib AnyProofCor.
 From HC Require Import Core SoundCoreLib SoundCore ReplicaCor ReplicaCorA.
@@ -335,6 +337,200 @@ Theorem C09_block_offset_returns_any :
          Sound.some_collision cr \/ forged_signature cr bs (kp_public (c_keypair c)).
 Proof. exact hinv_block_offset_returns. Qed.
 
+Theorem C09_entry_size_bound :
+  forall (e : entry) (b : bytes), enc_entry e = Ok b -> len b <= entry_size_bound e.
+Proof. exact enc_entry_len_bound. Qed.
+
+Theorem C09_frame_panic_has_one_of_four_causes :
+  forall (cr : crypto) (f : option bool) (pf : proof) (c : core) (w : world) (c' : core) (w' : world),
+         core_apply_proof cr f pf c w = (c', w', Panic Refine.frame_msg) ->
+         verifier_says cr c w pf = Panic Refine.frame_msg /\ c' = c /\ w' = w \/
+         (exists cs : changeset,
+            verifier_says cr c w pf = Ok cs /\
+            ((exists b : data_block,
+                p_block pf = Some b /\
+                c' = c /\
+                w' = w /\
+                byte_offset_in_changeset (c_tree c) (d_tree (w_disk w)) (db_index b) cs =
+                Panic Refine.frame_msg) \/
+             (exists (e : entry) (h : header) (bb : bytes),
+                entry_of_changeset cs (proof_bu pf) (c_header c) = Ok (e, h) /\
+                enc_entry e = Ok bb /\ FRAME_LIMIT <= len bb) \/
+             (exists (e : entry) (h h2 : header),
+                entry_of_changeset cs (proof_bu pf) (c_header c) = Ok (e, h) /\
+                (h2 = h \/ (exists cg : N, h2 = set_contig h cg)) /\ FRAME_LIMIT <= len (enc_header h2)))).
+Proof. exact apply_frame_cause. Qed.
+
+Theorem C09_apply_any_returns_no_panic :
+  forall cr : crypto,
+         (forall x : bytes, Datatypes.length (cr_hash cr x) = 32%nat) ->
+         (forall x : bytes, all_zero (cr_hash cr x) = false) ->
+         forall bs : list bytes,
+         writer_fits bs ->
+         forall (f : option bool) (pf : proof) (c : core) (w : world) (c' : core) (w' : world) (r : res bool),
+         HInv cr bs c (w_disk w) ->
+         N.of_nat (Datatypes.length bs) < LIM ->
+         proof_wire pf ->
+         block_lim (p_block pf) = true ->
+         hash_lim (p_hash pf) = true ->
+         seek_lim (p_seek pf) = true ->
+         upgrade_nodes_lim pf ->
+         announced_sizes_fit_any c pf ->
+         N.of_nat (proof_carried pf) <= MAX_PROOF_NODES ->
+         header_room c ->
+         core_apply_proof cr f pf c w = (c', w', r) ->
+         returns r = true \/ Sound.some_collision cr \/ forged_signature cr bs (kp_public (c_keypair c)).
+Proof. exact apply_any_returns_no_panic. Qed.
+
+Theorem C09_apply_any_outcome_no_panic :
+  forall cr : crypto,
+         (forall x : bytes, Datatypes.length (cr_hash cr x) = 32%nat) ->
+         (forall x : bytes, all_zero (cr_hash cr x) = false) ->
+         forall bs : list bytes,
+         writer_fits bs ->
+         forall (f : option bool) (pf : proof) (c : core) (w : world) (c' : core) (w' : world) (r : res bool),
+         HInv cr bs c (w_disk w) ->
+         proof_wire pf ->
+         N.of_nat (proof_carried pf) <= MAX_PROOF_NODES ->
+         header_room c ->
+         core_apply_proof cr f pf c w = (c', w', r) ->
+         r = Ok true /\ HInv cr bs c' (w_disk w') \/
+         c' = c /\ w' = w /\ unchanged_outcome cr pf c w r \/
+         Sound.some_collision cr \/ forged_signature cr bs (kp_public (c_keypair c)).
+Proof. exact apply_any_outcome_no_panic. Qed.
+
+Theorem C09_any_history_apply_returns_no_panic :
+  forall cr : crypto,
+         (forall x : bytes, Datatypes.length (cr_hash cr x) = 32%nat) ->
+         (forall x : bytes, all_zero (cr_hash cr x) = false) ->
+         forall bs : list bytes,
+         writer_fits bs ->
+         forall (ops : list EventsAvail.op) (c : core) (w : world) (c1 : core) (w1 : world) 
+           (oks : list bool) (f : option bool) (pf : proof) (c' : core) (w' : world) 
+           (r : res bool),
+         HInv cr bs c (w_disk w) ->
+         kp_secret (c_keypair c) = None ->
+         N.of_nat (Datatypes.length bs) < LIM ->
+         hdr_small (c_header c) ->
+         Forall (any_op cr) ops ->
+         EventsAvail.run_ops cr ops c w = (c1, w1, oks) ->
+         proof_wire pf ->
+         block_lim (p_block pf) = true ->
+         hash_lim (p_hash pf) = true ->
+         seek_lim (p_seek pf) = true ->
+         upgrade_nodes_lim pf ->
+         announced_sizes_fit_any c1 pf ->
+         N.of_nat (proof_carried pf) <= MAX_PROOF_NODES ->
+         core_apply_proof cr f pf c1 w1 = (c', w', r) ->
+         returns r = true \/ Sound.some_collision cr \/ forged_signature cr bs (kp_public (c_keypair c)).
+Proof. exact any_history_apply_returns_no_panic_init. Qed.
+
+Theorem C09_frame_guard_is_real :
+  forall (cr : crypto) (hb pb : bool) (payload : bytes),
+         FRAME_LIMIT <= len payload -> frame cr hb pb payload = Panic Refine.frame_msg.
+Proof. exact frame_guard_fires. Qed.
+
+Theorem C09_create_proof_returns_after_histories_with_reopen :
+  forall cr : crypto,
+         OplogFacts.crc_ok cr ->
+         (forall x : bytes, Datatypes.length (cr_hash cr x) = 32%nat) ->
+         (forall x : bytes, all_zero (cr_hash cr x) = false) ->
+         (forall x : bytes, bytes_ok (cr_hash cr x) = true) ->
+         forall bs : list bytes,
+         writer_fits bs ->
+         forall (ops : list hop) (c : core) (w : world) (H : N -> bool) (c1 : core) 
+           (w1 : world) (block hash : option req_block) (seek : option req_seek) (upgrade : option req_upgrade)
+           (c' : core) (w' : world) (r : res (option proof)),
+         HDInvR cr bs c (w_disk w) H ->
+         N.of_nat (Datatypes.length bs) < LIM ->
+         Forall hop_ok ops ->
+         run_hops cr ops c w = (c1, w1) ->
+         rblock_lim block = true ->
+         rblock_lim hash = true ->
+         rupgrade_lim upgrade = true ->
+         core_create_proof block hash seek upgrade c1 w1 = (c', w', r) ->
+         returns r = true /\ c' = c1 /\ w_disk w' = w_disk w1 /\ w_journal w' = w_journal w1 \/
+         Sound.some_collision cr \/ forged_signature cr bs (kp_public (c_keypair c)).
+Proof. exact history_create_proof_returns. Qed.
+
+Theorem C09_apply_returns_after_histories_with_reopen :
+  forall cr : crypto,
+         OplogFacts.crc_ok cr ->
+         (forall x : bytes, Datatypes.length (cr_hash cr x) = 32%nat) ->
+         (forall x : bytes, all_zero (cr_hash cr x) = false) ->
+         (forall x : bytes, bytes_ok (cr_hash cr x) = true) ->
+         forall bs : list bytes,
+         writer_fits bs ->
+         forall (ops : list hop) (c : core) (w : world) (H : N -> bool) (c1 : core) 
+           (w1 : world) (f : option bool) (pf : proof) (c' : core) (w' : world) (r : res bool),
+         HDInvR cr bs c (w_disk w) H ->
+         N.of_nat (Datatypes.length bs) < LIM ->
+         Forall hop_ok ops ->
+         run_hops cr ops c w = (c1, w1) ->
+         proof_wireS pf ->
+         block_lim (p_block pf) = true ->
+         hash_lim (p_hash pf) = true ->
+         seek_lim (p_seek pf) = true ->
+         upgrade_nodes_lim pf ->
+         announced_sizes_fit_any c1 pf ->
+         core_apply_proof cr f pf c1 w1 = (c', w', r) ->
+         returns r = true \/
+         r = Panic Refine.frame_msg \/
+         Sound.some_collision cr \/ forged_signature cr bs (kp_public (c_keypair c)).
+Proof. exact history_apply_returns. Qed.
+
+Theorem C09_announced_sizes_fit_under_the_property_bounds :
+  forall (c : core) (pf : proof),
+         upgrade_nodes_lim pf ->
+         N.of_nat (proof_carried pf) <= MAX_PROOF_NODES ->
+         t_byte_length (c_tree c) < SIZE_LIMIT -> announced_sizes_fit_any c pf.
+Proof. exact announced_sizes_fit_of_carried. Qed.
+
+Theorem C09_replica_byte_length_is_bounded :
+  forall cr : crypto,
+         (forall x : bytes, Datatypes.length (cr_hash cr x) = 32%nat) ->
+         forall bs : list bytes,
+         N.of_nat (Datatypes.length bs) < LIM ->
+         sumN (map len bs) < SIZE_LIMIT ->
+         forall (ops : list EventsAvail.op) (c : core) (w : world) (c1 : core) (w1 : world) (oks : list bool),
+         HInv cr bs c (w_disk w) ->
+         kp_secret (c_keypair c) = None ->
+         Forall (any_op cr) ops ->
+         EventsAvail.run_ops cr ops c w = (c1, w1, oks) ->
+         t_byte_length (c_tree c1) < SIZE_LIMIT \/
+         Sound.some_collision cr \/ forged_signature cr bs (kp_public (c_keypair c)).
+Proof. exact any_history_byte_length. Qed.
+
+Theorem C09_plain :
+  forall cr : crypto,
+         (forall x : bytes, Datatypes.length (cr_hash cr x) = 32%nat) ->
+         (forall x : bytes, all_zero (cr_hash cr x) = false) ->
+         forall bs : list bytes,
+         N.of_nat (Datatypes.length bs) < LIM ->
+         sumN (map len bs) < SIZE_LIMIT ->
+         forall kp : keypair,
+         Datatypes.length (kp_public kp) = 32%nat ->
+         kp_secret kp = None ->
+         forall ops : list EventsAvail.op,
+         Forall (any_op cr) ops ->
+         exists (d0 : disk) (ops0 : list sop) (c0 : core),
+           core_open cr (Some kp) false disk_empty = (d0, ops0, Ok c0) /\
+           (forall (j : list sop) (ev : list event) (c1 : core) (w1 : world) (oks : list bool),
+            EventsAvail.run_ops cr ops c0 {| w_disk := d0; w_journal := j; w_events := ev |} = (c1, w1, oks) ->
+            (forall (f : option bool) (pf : proof) (c' : core) (w' : world) (r : res bool),
+             proof_wire pf ->
+             proof_lim pf ->
+             N.of_nat (proof_carried pf) <= MAX_PROOF_NODES ->
+             core_apply_proof cr f pf c1 w1 = (c', w', r) ->
+             returns r = true \/ Sound.some_collision cr \/ forged_signature cr bs (kp_public kp)) /\
+            (forall (block hash : option req_block) (seek : option req_seek) (upgrade : option req_upgrade)
+               (c2 : core) (w2 : world) (r : res (option proof)),
+             request_lim block hash upgrade ->
+             core_create_proof block hash seek upgrade c1 w1 = (c2, w2, r) ->
+             returns r = true /\ c2 = c1 /\ w_disk w2 = w_disk w1 /\ w_journal w2 = w_journal w1 \/
+             Sound.some_collision cr \/ forged_signature cr bs (kp_public kp))).
+Proof. exact C09_plain. Qed.
+
 Print Assumptions C09_verify_returns_without_upgrade.
 Print Assumptions C09_verify_tree_returns.
 Print Assumptions C09_verify_never_panics.
@@ -372,3 +568,14 @@ Print Assumptions C09_block_offset_returns_any.
 Print Assumptions AnyProofCorEx.sc_any_history_applies.
 Print Assumptions AnyProofCorEx.sc_any_history_failed_apply_applies.
 Print Assumptions AnyProofCorEx.sc_apply_any_returns_applies.
+Print Assumptions C09_entry_size_bound.
+Print Assumptions C09_frame_panic_has_one_of_four_causes.
+Print Assumptions C09_apply_any_returns_no_panic.
+Print Assumptions C09_apply_any_outcome_no_panic.
+Print Assumptions C09_any_history_apply_returns_no_panic.
+Print Assumptions C09_frame_guard_is_real.
+Print Assumptions C09_create_proof_returns_after_histories_with_reopen.
+Print Assumptions C09_apply_returns_after_histories_with_reopen.
+Print Assumptions C09_announced_sizes_fit_under_the_property_bounds.
+Print Assumptions C09_replica_byte_length_is_bounded.
+Print Assumptions C09_plain.
